@@ -25,6 +25,11 @@ CHECKS["C13"] = ("exploration",
     "All prediction matrices with rows in closed-simplex lattices (one-hot rows included) for small (K,n), under ALL sample permutations (with affinity rows/columns) and ALL cluster permutations, with an appended empty cluster, are scored by all 13 class/flag targets; invariance, zero gradient of the empty cluster, lower bounds, vanishing for sample-independent predictions, TV/Hellinger <= 1, MI(balanced partition)=log K and finiteness of scores and gradients are asserted on every one; gradient equivariance at seed-generic interior points under all permutation pairs.",
     "Lattice denominators 2 and 4; gradient equivariance only where gradients are unique (generic points), compared in the simplex tangent space.",
     "5/C13")
+CHECKS["C03"] = ("exploration",
+    "bounded-exhaustive enumeration of training configurations with a history monitor on every optimiser step of the real fit (optimiser/batch seams) vs finite-difference reference of the regularised batch objective",
+    "Model family x GEMINI x solver x batch size x {plain, must-link/cannot-link decorated} x datasets are fitted for real; the wrapped BaseOptimizer.update_params sees, at EVERY step of EVERY epoch, the live weights and the direction handed over, which must equal the negative gradient of GEMINI(batch predictions) minus the documented penalty, block by block (reference: real GEMINI gradient chained with two-step central differences of the model's own forward pass, analytic penalty, C14 reference constraint term).",
+    "GEMINI gradient exactness is delegated to C02; tiny models; parameters on a ReLU kink are skipped and counted.",
+    "5/C03")
 NOT_APPLICABLE = {}
 
 def main():
